@@ -59,7 +59,7 @@ Definition limit_after (auth : string) (l : Z) (o : op) : Z :=
 Lemma step_limit cfg e w o :
   pass_limit (w_o (fst (step cfg e w o))) = limit_after (cfg_authority cfg) (pass_limit (w_o w)) o.
 Proof.
-  destruct o as [p tape lie|signer m tape|to d a|sf st sd sa|q| | | |p2 tape2 lie2 k2]; cbn [step fst limit_after]; try reflexivity.
+  destruct o as [p tape lie|signer m tape|to d a|sf st sd sa|mv|q| | | |p2 tape2 lie2 k2]; cbn [step fst limit_after]; try reflexivity.
   - pose proof (recv_controls cfg e w p tape lie) as H. unfold controls in H. inversion H as [[H1 H2 H3 Hm]].
     unfold pass_limit. rewrite Hm. reflexivity.
   - destruct (step_msg cfg w signer m tape) as [w' x] eqn:E. cbn [fst].
